@@ -634,6 +634,12 @@ def r3_crowding(ctx, repo):
 
     # interior loop
     inner = [s_ for s_ in obj_loop.body if isinstance(s_, ast.For)]
+    if len(inner) != 1 or not any(isinstance(x_, (ast.AugAssign, ast.Assign)) and is_cd(x_.target if isinstance(x_, ast.AugAssign) else x_.targets[0]) is not None
+                                  for x_ in stmts_of(inner[0])):
+        # the loop that credits the members, wherever it stands in the round (under a guard on the range, next to a loop that
+        # only collects the sorted values)
+        inner = [s_ for s_ in stmts_of(obj_loop) if isinstance(s_, ast.For) and s_ is not obj_loop and any(
+            isinstance(x_, (ast.AugAssign, ast.Assign)) and is_cd(x_.target if isinstance(x_, ast.AugAssign) else x_.targets[0]) is not None for x_ in s_.body)]
     if len(inner) != 1:
         ctx.inconclusive("R3", C, where(mod, obj_loop), "interior loop not found", key="interior")
         return
@@ -681,7 +687,36 @@ def r3_crowding(ctx, repo):
             ctx.violated("R3", C, where(mod, st), "the normalised gap is not added", key="gap")
             return
         term = st.value
-    term = T.expand(term, at=st, elems=True)
+    from ..terms import index_of_map
+    term = index_of_map(T.expand(term, at=st, elems=True))
+    # values collected once per round from the sorted front (V = [E(v) for v in front], built by a loop): V[k] is E(front[k])
+    # as long as the front is not reordered or resized between the collection and the use
+    import copy as _copy
+    body_ = obj_loop.body
+    for bi_, b_ in enumerate(body_):
+        if isinstance(b_, ast.For) and access_path(b_.iter) == front and isinstance(b_.target, ast.Name) and len(b_.body) == 1 and isinstance(b_.body[0], ast.Expr) \
+                and is_method_call(b_.body[0].value, "append") and isinstance(b_.body[0].value.func.value, ast.Name) and len(b_.body[0].value.args) == 1:
+            V_ = b_.body[0].value.func.value.id
+            fresh_ = any(isinstance(x_, ast.Assign) and access_path(x_.targets[0]) == V_ and isinstance(x_.value, ast.List) and not x_.value.elts for x_ in body_[:bi_])
+            later_ = [x_ for x_ in body_[bi_ + 1:] for x_ in ast.walk(x_)]
+            moved_ = any(isinstance(x_, ast.Call) and isinstance(x_.func, ast.Attribute) and access_path(x_.func.value) in (front, V_)
+                         and x_.func.attr in ("sort", "reverse", "append", "pop", "insert", "remove", "extend", "clear") for x_ in later_) or \
+                any(isinstance(x_, ast.Assign) and any(access_path(t_) in (front, V_) for t_ in x_.targets) for x_ in later_)
+            if fresh_ and not moved_:
+                E_, v_ = b_.body[0].value.args[0], b_.target.id
+
+                class VM(ast.NodeTransformer):
+                    def visit_Subscript(self, n_):
+                        self.generic_visit(n_)
+                        if isinstance(n_.value, ast.Name) and n_.value.id == V_ and not isinstance(n_.slice, ast.Slice):
+                            el_ = ast.Subscript(value=ast.Name(id=front, ctx=ast.Load()), slice=n_.slice, ctx=ast.Load())
+
+                            class S1(ast.NodeTransformer):
+                                def visit_Name(self, m_):
+                                    return _copy.deepcopy(el_) if m_.id == v_ else m_
+                            return ast.fix_missing_locations(ast.copy_location(S1().visit(_copy.deepcopy(E_)), n_))
+                        return n_
+                term = VM().visit(_copy.deepcopy(term))
     if not (isinstance(term, ast.BinOp) and isinstance(term.op, ast.Div)):
         ctx.check3(None, "R3", C, where(mod, st), unknown_detail="the added term %s is not recognised as gap / range" % text(term)[:120], key="gap")
         return
